@@ -1333,3 +1333,147 @@ class kt_update(Contract):
         K = a["__self__"]
         yield "returns-the-object-itself", ret is K
         yield "named-parts-replaced-by-their-chunks-the-rest-unchanged", self._state(S, a, K, K.ghost["L"])
+
+
+# ======================================================================= from_vector (C08: the vector round trip, constructor side)
+
+@register
+class kt_from_vector(Contract):
+    qual = K_ + "from_vector"
+    props = ("C08",)
+    doc = ("ktensor.from_vector(data, shape, contains_weights) for a 1-D real vector and ANY shape tuple (any order, entries >= 0, "
+           "not all zero when there are no weights): with s = sum(shape) (+ 1 with weights) the number of components is "
+           "R = len(data) / s and the call raises when that is not a whole number; the weights are data[0:R] (all ones without "
+           "weights) and entry (i, c) of factor m is data[base + R * SS(m) + c * shape[m] + i] with SS the prefix-sum function of "
+           "the shape and base = R or 0 -- the very layout K.tovec() is proved to write, so from_vector(K.tovec(w), K.shape, w) "
+           "rebuilds K entry by entry (case round-trip: the data vector is assumed to have the layout of tovec's postcondition "
+           "for some K0; the result must equal K0).  Loop invariant over the modes for the list being appended to.")
+    inline = KT_INLINE + ("pyttb.pyttb_utils.parse_shape", "pyttb.pyttb_utils.isvector", "pyttb.pyttb_utils.isrow")
+
+    def case_names(self):
+        return ["with-weights", "factors-only", "round-trip"]
+
+    def setup(self, S, case):
+        S.ctx.prefix_sums = True
+        S.ctx.div_checks = True
+        S.ctx.div_as_product = True
+        Nn = S.nat("N")
+        shape = S.vector("shape", Nn, "int", kind="tuple")
+        q = z3.Int("fv!q")
+        S.assume(T.ForAll([q], z3.Implies(z3.And(0 <= q, q < Nn), T.tz(shape.fn(q)) >= 0), [shape.fn(q)]))
+        D = S.nat("D")
+        data = S.vector("data", D, "real")
+        cw = case != "factors-only"
+        if not cw:
+            # sum(shape) > 0: some mode has a positive size (otherwise the component count is 0/0)
+            w = S.nat("wpos")
+            S.assume(z3.And(w < Nn, T.tz(shape.fn(w)) >= 1))
+        a = dict(data=data, shape=shape, contains_weights=cw)
+        a["__D__"], a["__N__"], a["__case__"] = D, Nn, case
+        if case == "round-trip":
+            # data is K0.tovec(): D = R0 * (SS(N) + 1), weights first, then the factors column by column
+            R0 = S.nat("R0")
+            W0 = z3.Function(T.fresh_name("W0"), I_, z3.RealSort())
+            F0 = z3.Function(T.fresh_name("F0"), I_, I_, I_, z3.RealSort())
+            a["__K0__"] = dict(R=R0, W=W0, F=F0)
+            # hypothesis of this case, over the shape's own prefix-sum function (one definitional function per array value: the
+            # body's sum(shape) names the same one)
+            SS = N.prefix_sum_fn(S.ctx, shape)
+            d = lambda m_: T.tz(shape.fn(m_))
+            m, c, i, t = z3.Int("fv!m0"), z3.Int("fv!c0"), z3.Int("fv!i0"), z3.Int("fv!t0")
+            dv = lambda t_: T.tz(T.as_real(data.fn(t_)))
+            S.assume(D == R0 * (SS(Nn) + 1))
+            S.assume(T.ForAll([t], z3.Implies(z3.And(0 <= t, t < R0), dv(t) == W0(t))))
+            S.assume(T.ForAll([m, c, i], z3.Implies(z3.And(0 <= m, m < Nn, 0 <= c, c < R0, 0 <= i, i < d(m)),
+                                                    dv(R0 + R0 * SS(m) + c * d(m) + i) == F0(m, i, c))))
+        return a
+
+    # ------------------------------------------------------------------ specification helpers
+    @staticmethod
+    def _ss(S):
+        gs = S.body_ghosts.get("sum")
+        return gs[0]["ps"] if gs else None
+
+    @staticmethod
+    def _layout(S, a, R):
+        """(d, base, pos): mode sizes, offset of the factor part, position of entry (i, c) of factor m."""
+        shape = a["shape"]
+        SS = kt_from_vector._ss(S)
+        d = lambda m_: T.tz(shape.fn(m_))
+        base = R if a["contains_weights"] else 0
+        return d, base, (lambda m_, c_, i_: base + R * SS(m_) + c_ * d(m_) + i_)
+
+    @staticmethod
+    def _inv(S, a, env, k):
+        SS = kt_from_vector._ss(S)
+        if SS is None:
+            return False
+        R = T.tz(env["num_components"])
+        d, base, pos = kt_from_vector._layout(S, a, R)
+        lst = env["factor_matrices"]
+        k = T.tz(k)
+        if isinstance(lst, list) and not lst:
+            return k == 0  # the empty list before the first iteration
+        if not isinstance(lst, SymList):
+            return False
+        data = N.snap(a["data"])
+        m, c, i = z3.Int("fv!m"), z3.Int("fv!c"), z3.Int("fv!i")
+        item = lambda m_: lst.item(m_)
+        return z3.And(
+            T.tz(T.eq(lst.length, k)),
+            T.ForAll([m], z3.Implies(z3.And(0 <= m, m < k), z3.And(T.tz(T.eq(item(m).shape[0], d(m))), T.tz(T.eq(item(m).shape[1], R))))),
+            T.ForAll([m, c, i], z3.Implies(z3.And(0 <= m, m < k, 0 <= c, c < R, 0 <= i, i < d(m)),
+                                           T.tz(T.as_real(item(m).fn(i, c))) == T.tz(T.as_real(data.fn(pos(m, c, i)))))))
+
+    @staticmethod
+    def _havoc(S, a, env, name):
+        """The list after some iterations: matrices of the right shapes with arbitrary entries (the invariant pins the length)."""
+        R = env["num_components"]
+        shape = a["shape"]
+        L = S.nat("fvL")
+        F = z3.Function(T.fresh_name("FV"), I_, I_, I_, z3.RealSort())
+        return SymList(L, lambda m_: Arr((shape.fn(T.tz(m_)), R), lambda i_, c_, m_=m_: F(T.tz(m_), T.tz(i_), T.tz(c_)), "real"), kind="list")
+
+    loops = {0: dict(modifies=["factor_matrices"], inv=lambda S, a, env, i: kt_from_vector._inv(S, a, env, i),
+                     havoc=lambda S, a, env, name: kt_from_vector._havoc(S, a, env, name))}
+
+    def raises_when(self, S, a):
+        # decided on the shape's prefix-sum function (definitional; the same one the body's sum(shape) names)
+        SS = N.prefix_sum_fn(S.ctx, a["shape"])
+        s = SS(a["__N__"]) + (1 if a["contains_weights"] else 0)
+        r = z3.Int("fv!r")
+        yield "length-is-not-a-multiple-of-the-per-component-size", z3.Not(z3.Exists([r], z3.And(r >= 0, r * s == a["__D__"])))
+
+    def ensures(self, S, a, ret):
+        yield "returns-a-ktensor", isinstance(ret, Rec) and ret.cls == "ktensor"
+        SS = self._ss(S)
+        yield "uses-the-shape-sum", SS is not None
+        if SS is None or not isinstance(ret, Rec):
+            return
+        Nn, D, shape = a["__N__"], a["__D__"], a["shape"]
+        data = N.snap(a["data"])
+        w, fms = ret.fields.get("weights"), ret.fields.get("factor_matrices")
+        yield "has-weights-and-factors", isinstance(w, Arr) and w.ndim == 1 and isinstance(fms, SymList)
+        if not (isinstance(w, Arr) and isinstance(fms, SymList)):
+            return
+        R = T.tz(w.shape[0])
+        d, base, pos = self._layout(S, a, R)
+        s = SS(Nn) + (1 if a["contains_weights"] else 0)
+        m, c, i, t = z3.Int("fv!m"), z3.Int("fv!c"), z3.Int("fv!i"), z3.Int("fv!t")
+        dv = lambda t_: T.tz(T.as_real(data.fn(t_)))
+        yield "component-count", R * s == D
+        yield "one-factor-per-mode", T.tz(T.eq(fms.length, Nn))
+        yield "factor-shapes", T.ForAll([m], z3.Implies(z3.And(0 <= m, m < Nn), z3.And(T.tz(T.eq(fms.item(m).shape[0], d(m))), T.tz(T.eq(fms.item(m).shape[1], R)))))
+        if a["contains_weights"]:
+            yield "weights-are-the-leading-entries", T.ForAll([t], z3.Implies(z3.And(0 <= t, t < R), T.tz(T.as_real(w.fn(t))) == dv(t)))
+        else:
+            yield "weights-are-ones", T.ForAll([t], z3.Implies(z3.And(0 <= t, t < R), T.tz(T.as_real(w.fn(t))) == 1))
+        yield "factor-entries-by-position", T.ForAll([m, c, i], z3.Implies(z3.And(0 <= m, m < Nn, 0 <= c, c < R, 0 <= i, i < d(m)),
+                                                                          T.tz(T.as_real(fms.item(m).fn(i, c))) == dv(pos(m, c, i))))
+        K0 = a.get("__K0__")
+        if K0 is not None:
+            R0, W0, F0 = K0["R"], K0["W"], K0["F"]
+            yield "round-trip:same-rank", R == R0
+            yield "round-trip:same-weights", T.ForAll([t], z3.Implies(z3.And(0 <= t, t < R0), T.tz(T.as_real(w.fn(t))) == W0(t)))
+            yield "round-trip:same-factors", T.ForAll([m, c, i], z3.Implies(z3.And(0 <= m, m < Nn, 0 <= c, c < R0, 0 <= i, i < d(m)),
+                                                                           T.tz(T.as_real(fms.item(m).fn(i, c))) == F0(m, i, c)))
